@@ -18,7 +18,7 @@ import (
 func c01Opts(r *mon.RNG, i int) *gram.GenOpts {
 	prof := []int{gram.ProfStateful, gram.ProfStateful, gram.ProfDefault, gram.ProfLower, gram.ProfScanCfg}[i%5]
 	o := &gram.GenOpts{Profile: prof, MaxProds: 5, Budget: 14 + r.Intn(14) + (i/90)*6, Depth: 2 + r.Intn(3) + i/150, TokKinds: i%3 == 0, Unions: true,
-		SharePrefix: 6, CaptureBias: 4, SubBias: 3, AllowBang: true, NamesElided: i%7 == 3, CatchAll: 2, MoreUnions: i%6 == 5, EOFRefs: i%2 == 0}
+		SharePrefix: 6, CaptureBias: 4, SubBias: 3, AllowBang: true, NamesElided: i%7 == 3, CatchAll: 2, MoreUnions: i%6 == 5, EOFRefs: i%2 == 0, CapTypes: i%4 == 2}
 	if o.NamesElided {
 		o.Profile = gram.ProfStateful // only this profile has elided token types a grammar can name
 	}
@@ -28,7 +28,7 @@ func c01Opts(r *mon.RNG, i int) *gram.GenOpts {
 func c02Opts(r *mon.RNG, i int) *gram.GenOpts {
 	prof := []int{gram.ProfStateful, gram.ProfDefault, gram.ProfStateful, gram.ProfLower}[i%4]
 	return &gram.GenOpts{Profile: prof, MaxProds: 5, Budget: 16 + r.Intn(14) + (i/90)*6, Depth: 3 + r.Intn(3) + i/150, TokKinds: false, Unions: true,
-		SharePrefix: 8, CaptureBias: 7, SubBias: 6, AllowBang: false, CatchAll: 4, MoreUnions: i%5 == 4}
+		SharePrefix: 8, CaptureBias: 7, SubBias: 6, AllowBang: false, CatchAll: 4, MoreUnions: i%5 == 4, CapTypes: i%3 == 1}
 }
 
 type sliceLex struct {
